@@ -69,7 +69,7 @@ pub fn sound_elf32_le_small() {
 /// Completeness on builder-produced tables (n symbols incl. the null symbol at index 0).
 /// Concrete: class, nbucket, n. Symbolic: all names (0..2 bytes over the full byte alphabet), the symbols'
 /// other fields, the present-symbol choice, the absent name, byte order.
-pub fn sysv_complete<const NB: usize, const NS: usize>(class: Class) {
+pub fn sysv_complete<const NB: usize, const NS: usize>(class: Class, absent_query: bool) {
     // NS = number of hashed symbols (indexes 1..=NS); index 0 is the undefined symbol.
     let le: bool = kani::any();
     let e = if le { AnyEndian::Little } else { AnyEndian::Big };
@@ -138,6 +138,7 @@ pub fn sysv_complete<const NB: usize, const NS: usize>(class: Class) {
     assert!(t.is_ok());
     let t = t.unwrap();
     // a present name is found at the first index bearing it
+    if !absent_query {
     let k: usize = kani::any();
     kani::assume(k < NS);
     let q = [names[k].c0, names[k].c1];
@@ -161,6 +162,8 @@ pub fn sysv_complete<const NB: usize, const NS: usize>(class: Class) {
         }
     }
     // an absent name (any 0..2 byte string different from all present names) is not found
+    return;
+    }
     let a = Slot::any();
     let mut absent = true;
     i = 0;
@@ -180,6 +183,11 @@ pub fn sysv_complete<const NB: usize, const NS: usize>(class: Class) {
 
 #[kani::proof]
 #[kani::unwind(8)]
-pub fn complete_elf32_nb1_n2() {
-    sysv_complete::<1, 2>(Class::ELF32);
+pub fn complete_elf32_nb1_n2_present() {
+    sysv_complete::<1, 2>(Class::ELF32, false);
+}
+#[kani::proof]
+#[kani::unwind(8)]
+pub fn complete_elf32_nb1_n2_absent() {
+    sysv_complete::<1, 2>(Class::ELF32, true);
 }
